@@ -286,14 +286,17 @@ PROPS = {
         "renamed_lib": True,
         "quick": {"cases": 12000, "workers": 4, "opts": ["maxthreads=8"]},
         "thorough": {"cases": 400000, "workers": 4, "opts": ["maxthreads=16"]},
-        "rule": "rapidcheck cases in two modes over the operation table of C20 (hash histories, multi-hash partitions, every AES entry point with continuation, "
+        "rule": "rapidcheck cases in three modes over the operation table of C20 (hash histories, multi-hash partitions, every AES entry point with continuation, "
                 "every catalog entry; all families). Snapshot mode: 1..6 operations run on one thread; the library (linked as one relocatable object whose .data/.bss/"
                 ".data.rel.local are renamed so that __start_/__stop_ symbols delimit its writable static storage) is snapshotted before and compared after every "
                 "operation: no byte may change except inside the <entry>_dispatched pointers (hook), optionally after re-arming all of them. Thread mode: 2..8 (thorough "
                 "16) real threads, each with 1..4 operations on its own objects, run first sequentially and then concurrently from a barrier, in half of the cases "
-                "after re-arming every dispatch pointer so that the first calls race through the resolvers. Oracle: every thread's observables (outputs, tags, "
-                "digests, return values, hand-back order) equal its sequential observables, every in-run reference oracle still holds, final bindings equal the "
-                "sequential bindings. Non-trivial = operations of >=3 different units in the case. Distinct = hash of the case JSON.",
+                "after re-arming every dispatch pointer so that the first calls race through the resolvers. Hammer mode: 2..8 (16) threads each prepare ONE call of "
+                "the same family / operation / entry point (every hash ctx family, every multi-hash family, every AES entry point x family, every catalog entry) on "
+                "their own objects and data and repeat it 50..1500 times in a tight loop (objects restored by memcpy, nothing allocated in the loop) so that executions "
+                "of the same library code overlap in time. Oracle: every thread's observables (outputs, tags, digests, return values, hand-back order) equal its "
+                "run-alone observables, every in-run reference oracle still holds, final bindings equal the sequential bindings. Non-trivial = operations of >=3 "
+                "different units in the case, or a hammer case. Distinct = hash of the case JSON.",
         "assumptions": COMMON_ASSUME + ["a race needs the colliding writes to be observable in results or in the snapshot; TSan cannot see assembly and is not used",
                                         "the FIPS self-test verdict word exists only in the FIPS variant (C17 covers it); this check runs the default variant",
                                         "4 worker processes x up to 16 threads keep the 16 cores busy without oversubscribing the scheduler"],
